@@ -127,6 +127,15 @@ func (p *serPay) problem(s string) {
 
 // resolved gives the top-level events with the names found later filled in.
 func (p *serPay) resolved() []serEvent {
+	subst := func(w string) string {
+		if !strings.Contains(w, "sized#") {
+			return w
+		}
+		for f, id := range p.sized {
+			w = strings.ReplaceAll(w, fmt.Sprintf("sized#%d", id), f)
+		}
+		return w
+	}
 	var fix func(ev []serEvent) []serEvent
 	fix = func(ev []serEvent) []serEvent {
 		var out []serEvent
@@ -134,6 +143,7 @@ func (p *serPay) resolved() []serEvent {
 			if n, ok := p.names[e.id]; ok {
 				e.What = n
 			}
+			e.What = subst(e.What)
 			e.Inner = fix(e.Inner)
 			// consecutive header writes are one header
 			if e.Kind == "HDR" && len(out) > 0 && out[len(out)-1].Kind == "HDR" && !isDigits(e.What) {
@@ -244,7 +254,7 @@ func (c *Ctx) serHooks(mode serMode) Hooks {
 		}
 	}
 	h.Inline = func(fn *types.Func) bool {
-		return fn.Pkg() != nil && fn.Pkg().Path() == bclPath && !serPrimitives[funcName(fn)]
+		return fn.Pkg() != nil && fn.Pkg().Path() == bclPath && c.serRoleOf(fn) == ""
 	}
 	h.SameEffect = func(a, b *State) bool {
 		return seqString(serPayOf(a).resolved()) == seqString(serPayOf(b).resolved()) && len(serPayOf(a).frames) == len(serPayOf(b).frames) &&
@@ -485,6 +495,11 @@ func (c *Ctx) serHooks(mode serMode) Hooks {
 		name := ""
 		if callee != nil {
 			name = qname(callee)
+			if fn, ok := callee.(*types.Func); ok {
+				if role := c.serRoleOf(fn); role != "" {
+					name = role
+				}
+			}
 		}
 		arg := func(i int) Value {
 			if i < len(args) {
@@ -821,10 +836,16 @@ func (c *Ctx) serHooks(mode serMode) Hooks {
 			return true
 		case *ast.IndexExpr:
 			xv := in.eval(st.clone(), l.X)
-			if len(xv) != 1 || !isTag(xv[0].v, "field") {
+			if len(xv) != 1 || !(isTag(xv[0].v, "field") || isTag(xv[0].v, "sized")) {
 				return false
 			}
-			f := xv[0].v.Data.(string)
+			f := ""
+			if isTag(xv[0].v, "sized") {
+				// a local slice sized by a varint of the stream: it stands for the Prog field it is (or will be) stored in
+				f = fmt.Sprintf("sized#%d", xv[0].v.Data.(int))
+			} else {
+				f = xv[0].v.Data.(string)
+			}
 			if isTag(v, "uv") || isTag(v, "val") {
 				if _, named := p.names[v.Data.(int)]; !named {
 					p.names[v.Data.(int)] = "elem(" + f + ")"
@@ -1141,6 +1162,10 @@ func (c *Ctx) serHooks(mode serMode) Hooks {
 					if _, ok := p.sized[rangeField]; !ok {
 						p.problem(c.pos(loop.Pos()) + ": a section loop ranges over " + rangeField + ", which was not sized by a count read from the stream")
 					}
+				case boundUV != 0 && strings.HasPrefix(field, "sized#"):
+					if field != fmt.Sprintf("sized#%d", boundUV) {
+						p.problem(c.pos(loop.Pos()) + ": a section is decoded in a loop bounded by a different count than the one that sized it")
+					}
 				case boundUV != 0:
 					if uv, ok := p.sized[field]; !ok || uv != boundUV {
 						p.problem(c.pos(loop.Pos()) + ": section " + field + " is decoded in a loop bounded by a different count than the one that sized it")
@@ -1409,4 +1434,114 @@ func (c *Ctx) readFailures(fd *ast.FuncDecl) (out []serFailure, undecided []stri
 	}
 	c.memoTab[key] = out
 	return out, undecided
+}
+
+// serRoleOf names the codec primitive a module function is — by its name when it has the original one, otherwise by
+// its signature: uvarintToBytes func([]byte, uint64) int; valueToBytes func([]byte, value) int; uvarintFromBuf
+// (…) (uint64, error) reading from a reader; valueFromBuf (…) (value, error), the outermost of those with that
+// result shape.
+func (c *Ctx) serRoleOf(fn *types.Func) string {
+	if fn == nil || fn.Pkg() == nil || fn.Pkg().Path() != bclPath {
+		return ""
+	}
+	if serPrimitives[funcName(fn)] {
+		return funcName(fn)
+	}
+	if c.memoTab == nil {
+		c.memoTab = map[string]any{}
+	}
+	roles, ok := c.memoTab["serRoles"].(map[*types.Func]string)
+	if !ok {
+		roles = map[*types.Func]string{}
+		c.memoTab["serRoles"] = roles
+		taken := map[string]bool{}
+		for _, it := range c.sortedDecls() {
+			if f, ok := it.obj.(*types.Func); ok && serPrimitives[funcName(f)] {
+				taken[funcName(f)] = true
+			}
+		}
+		isValueT := func(t types.Type) bool { return isNamed(t, bclPath, "value") }
+		isBytes := func(t types.Type) bool { return types.TypeString(t, nil) == "[]byte" }
+		isU64 := func(t types.Type) bool { return types.TypeString(t, nil) == "uint64" }
+		readerish := func(sig *types.Signature) bool {
+			check := func(t types.Type) bool {
+				s := types.TypeString(t, nil)
+				if strings.Contains(s, "bufio.Reader") || s == "io.Reader" {
+					return true
+				}
+				if st, ok := derefType(t).Underlying().(*types.Struct); ok {
+					for i := 0; i < st.NumFields(); i++ {
+						if strings.Contains(types.TypeString(st.Field(i).Type(), nil), "bufio.Reader") {
+							return true
+						}
+					}
+				}
+				return false
+			}
+			if sig.Recv() != nil && check(sig.Recv().Type()) {
+				return true
+			}
+			for i := 0; i < sig.Params().Len(); i++ {
+				if check(sig.Params().At(i).Type()) {
+					return true
+				}
+			}
+			return false
+		}
+		cand := map[string][]*types.Func{}
+		for _, it := range c.sortedDecls() {
+			f, ok := it.obj.(*types.Func)
+			if !ok || f.Pkg() == nil || f.Pkg().Path() != bclPath || it.fd.Body == nil {
+				continue
+			}
+			sig := f.Type().(*types.Signature)
+			ps, rs := sig.Params(), sig.Results()
+			switch {
+			case ps.Len() == 2 && rs.Len() == 1 && isBytes(ps.At(0).Type()) && isU64(ps.At(1).Type()) && isInt(rs.At(0).Type()):
+				cand["uvarintToBytes"] = append(cand["uvarintToBytes"], f)
+			case ps.Len() == 2 && rs.Len() == 1 && isBytes(ps.At(0).Type()) && isValueT(ps.At(1).Type()) && isInt(rs.At(0).Type()):
+				cand["valueToBytes"] = append(cand["valueToBytes"], f)
+			case rs.Len() == 2 && isU64(rs.At(0).Type()) && isErrorType(rs.At(1).Type()) && readerish(sig):
+				cand["uvarintFromBuf"] = append(cand["uvarintFromBuf"], f)
+			case rs.Len() == 2 && isValueT(rs.At(0).Type()) && isErrorType(rs.At(1).Type()) && readerish(sig):
+				cand["valueFromBuf"] = append(cand["valueFromBuf"], f)
+			}
+		}
+		// the outermost of several same-shaped decoders: the one none of the others calls… is called by none of them
+		callers, _ := c.callersByName()
+		for role, fs := range cand {
+			if taken[role] {
+				continue
+			}
+			var roots []*types.Func
+			for _, f := range fs {
+				inner := false
+				for _, g := range fs {
+					if g != f && callers[funcName(f)][funcName(g)] {
+						inner = true
+					}
+				}
+				if !inner {
+					roots = append(roots, f)
+				}
+			}
+			if len(roots) == 1 {
+				roles[roots[0]] = role
+			}
+		}
+	}
+	return roles[fn]
+}
+
+// serPrim finds the function playing the role of a codec primitive.
+func (c *Ctx) serPrim(role string) (*types.Func, *ast.FuncDecl) {
+	if obj, fd := c.find(role); fd != nil {
+		return obj, fd
+	}
+	for _, it := range c.sortedDecls() {
+		if f, ok := it.obj.(*types.Func); ok && c.serRoleOf(f) == role {
+			return f, it.fd
+		}
+	}
+	return nil, nil
 }
